@@ -1115,6 +1115,16 @@ def mon_B(case, pid):
                             cause = "upsert-of-expired-entry-during-its-eviction"
                         dl = "no deadline" if e["expiry"] is None else f"deadline {e['expiry']}"
                         yield finding(pid, st, f"the sweeper removed key {k} (id {e['id']}, {dl}) at clock {prev['now']}: a reader could still get it", f"{pid}/live-key-removed-by-sweep/{cause}")
+            if pid == "C10" and at_rest and not snap["shut"] and "unsweepable" not in seen:
+                # liveness side of C10: an entry whose own deadline has passed must still be in reach of the sweeper, i.e. its key
+                # id must be in the expiry index (in whatever shard); otherwise no sweep will ever reclaim it
+                indexed = {i for (_sh, i, _e) in snap["ttl"]}
+                for k, e in snap["store"].items():
+                    if e["expiry"] is not None and snap["now"] > e["expiry"] and e["id"] in snap["kw"] and e["id"] not in indexed:
+                        seen.add("unsweepable")
+                        cause = "index-entry-lost-after-overlapping-upserts" if k in lv["overlapped"] else "no-overlap"
+                        yield finding("C10", st, f"key {k} (id {e['id']}) has expired (deadline {e['expiry']}, clock {snap['now']}) and is still held and charged, but the expiry index has no entry for its id: no sweep will ever remove it", f"C10/expired-key-unsweepable/{cause}")
+                        break
             lv["prev_pcs"] = pcs
             lv["prev_snap"] = snap
         if pid == "C09":
